@@ -43,12 +43,13 @@ def check_bond(a1, a2, bo, rules=None):
     return msgs
 
 
-def check_angle(a1, a2, a3, bos):
+def check_angle(a1, a2, a3, bos, rules=None):
     from mofun import rough_uff as U
     T = U.UFF4MOF
-    got = call(U.angle_params, a1, a2, a3, bond_orders=list(bos))
-    want = call(SP.angle, T, a1, a2, a3, bos)
-    rev = call(U.angle_params, a3, a2, a1, bond_orders=list(reversed(bos)))
+    kw = {'bond_order_rules': rules} if rules is not None else {}
+    got = call(U.angle_params, a1, a2, a3, bond_orders=list(bos), **kw)
+    want = call(SP.angle, T, a1, a2, a3, bos, rules)
+    rev = call(U.angle_params, a3, a2, a1, bond_orders=list(reversed(bos)), **kw)
     msgs = []
     if got[0] != want[0] or (got[0] == 'ok' and not close(got[1], want[1])):
         msgs.append("angle_params(%s,%s,%s,bos=%r) = %r, formulas give %r" % (a1, a2, a3, bos, got, want))
@@ -95,7 +96,8 @@ def replay(inp):
         rules = [(set(r[0]), r[1]) for r in inp['rules']] if inp.get('rules') else None
         msgs = check_bond(inp['a'][0], inp['a'][1], inp['bo'], rules)
     elif k == 'angle':
-        msgs = check_angle(*inp['a'], tuple(inp['bos']))
+        rules = [(set(r[0]), r[1]) for r in inp['rules']] if inp.get('rules') else None
+        msgs = check_angle(*inp['a'], tuple(inp['bos']), rules)
     elif k == 'dihedral':
         msgs = check_dihedral(tuple(inp['a']), inp['M'], inp['bo'])
     else:
@@ -156,6 +158,16 @@ def run(rec, tier, seed):
                 rec.case(('bondrules', a1, a2, repr(rules)), group='bond+rules')
                 for m in ms:
                     rec.fail('uff', 'bond_params_rules', m, {'fn': 'bond', 'a': [a1, a2], 'bo': None, 'rules': [[sorted(s), b] for s, b in rules]}, 'C18/guess_bond_order')
+    # angles with user rules for the bond orders (a rule may match the first bond, the second, both or neither), orders given for neither / one bond
+    for rules in rules_sets:
+        for a1 in probe:
+            for a2 in probe:
+                for a3 in probe:
+                    for bos in ((None, None), (1, None), (None, 1.5)):
+                        ms = check_angle(a1, a2, a3, bos, rules)
+                        rec.case(('anglerules', a1, a2, a3, bos, repr(rules)), group='angle+rules')
+                        for m in ms:
+                            rec.fail('uff', 'angle_params_rules', m, {'fn': 'angle', 'a': [a1, a2, a3], 'bos': list(bos), 'rules': [[sorted(s_), b] for s_, b in rules]}, 'C18/angle_params/post')
     # triples
     bos2 = [(None, None), (1, 1), (1.5, 2), (2, 1)] if thorough else [(None, None), (1.5, 2)]
     sample = None if thorough else 0.02
